@@ -140,9 +140,10 @@ def free_run(args):
     pv = [[(Fr(x) if p["timed"] or p["units"] == "proportion" else Fr(float(x) * jit * (scale if p["units"] == "number" else 1.0))) for x, p in zip(h["pvf"], w["pars"])] for h in case["hist"]]
     Fw, ps = WD.build_parset(w, pv, S.tvec)
     WD.set_state(w, ps, [[Fr(float(x) * jit * scale) for x in rows] for rows in case["st"]])
+    pg, ins = WD.build_programs(w, ps, pv, S.tvec)
     try:
         with O.LinkObserver():
-            r = at.run_model(S, Fw, ps)
+            r = at.run_model(S, Fw, ps, pg, ins)
     except ValueError as ex:
         if "broadcast" in str(ex):  # row count differs from the specification's: reported by the replay of the same world
             return dict(trace=None, mism=[("rows",)], skipped=None)
